@@ -321,58 +321,74 @@ def body (cx : Ctx) (rec : Rec) (k : Nat) (kind : Kind) (a : AMode) (m : RMode) 
   | .disable c => rec c .nothing m env st
   | .action fam c => rec c a m { env with fam := fam } st
 
-/-- `tao::pegtl::match< Rule, A, M, Action, Control >( in, st... )` (match.hpp), bracketed by the
-    `enter`/`exit` observations the harness control makes around `Control< Rule >::match`. -/
+/-- `use_guard` of match.hpp: `match()` itself takes a `required` guard exactly when an
+    `apply` or a `bool`-returning `apply0` will be called. -/
+def useGuard (a : AMode) (act : ActionSpec) : Bool :=
+  decide (a = .action) && (act.kind == .apply || (act.kind == .apply0 && act.isBool))
+
+def hasAction (a : AMode) (act : ActionSpec) : Bool :=
+  decide (a = .action) && (act.kind == .apply || act.kind == .apply0)
+
+/-- The `apply` / `apply0` observation for rule `i` matched from `saved` to `e`. -/
+def actEvent (cx : Ctx) (i : Nat) (act : ActionSpec) (saved e : Cursor) : Ev :=
+  if act.kind == .apply then Ev.apply i (cx.rep saved) (cx.rep e) else Ev.apply0 i (cx.rep e)
+
+inductive ActOut | noAction | throws | vetoes | accepts
+  deriving DecidableEq, Repr
+
+/-- What the action of rule `i` does when called for the span `[saved, e)`. -/
+def actionOutcome (cx : Ctx) (i : Nat) (a : AMode) (act : ActionSpec) (saved e : Cursor) : ActOut :=
+  if hasAction a act then
+    let bb := if act.kind == .apply then (cx.rep saved).pos else (cx.rep e).pos
+    if act.throws i bb (cx.rep e).pos then .throws
+    else if act.vetoes i bb (cx.rep e).pos then .vetoes
+    else .accepts
+  else .noAction
+
+/-- What match.hpp does after the rule body returned: the action call (only after a match),
+    then `success` / `failure`, or `unwind` while an exception passes.  The cursor is not
+    touched here; `saved` is `m.inputerator()`, the start of the match. -/
+def afterBody (cx : Ctx) (i : Nat) (a : AMode) (act : ActionSpec) (saved : Cursor) (r : Ret) : Ret :=
+  match r.res with
+  | .thr _ => { r with raw := r.raw ++ (if cx.unwind then [Ev.unwind i (cx.rep r.st.cur)] else []) }
+  | .fail => { r with raw := r.raw ++ [Ev.failure i (cx.rep r.st.cur)] }
+  | .ok =>
+    let e := cx.rep r.st.cur
+    let aev := actEvent cx i act saved r.st.cur
+    match actionOutcome cx i a act saved r.st.cur with
+    | .noAction => { r with raw := r.raw ++ [Ev.success i e] }
+    | .throws =>
+      { r with res := .thr (.foreign i act.throwStd),
+               raw := r.raw ++ [aev] ++ (if cx.unwind then [Ev.unwind i e] else []) }
+    | .vetoes => { r with res := .fail, raw := r.raw ++ [aev, Ev.failure i e] }
+    | .accepts => { r with raw := r.raw ++ [aev, Ev.success i e], surv := r.surv ++ [aev] }
+
+/-- The `enter` / `exit` observations the harness control makes around `Control< Rule >::match`;
+    a failed or aborted invocation contributes no surviving action. -/
+def bracket (cx : Ctx) (i : Nat) (a : AMode) (m : RMode) (st : St) (r : Ret) : Ret :=
+  let r := r.dropOnFail
+  { r with raw := Ev.enter i a m (cx.rep st.cur) :: r.raw ++ [Ev.exit i r.res.code (cx.rep r.st.cur)] }
+
+/-- `tao::pegtl::match< Rule, A, M, Action, Control >( in, st... )` (match.hpp). -/
 def nodeCall (cx : Ctx) (rec : Rec) (k : Nat) (i : Nat) (a : AMode) (m : RMode) (env : Env) (st : St) : Out :=
   match cx.g[i]? with
   | none => none
   | some nd =>
-    let e0 := Ev.enter i a m (cx.rep st.cur)
-    let fin (r : Ret) : Ret :=
-      let r := r.dropOnFail
-      { r with raw := e0 :: r.raw ++ [Ev.exit i r.res.code (cx.rep r.st.cur)] }
     if !nd.ctl then
-      (body cx rec k nd.kind a m env st).map fin
+      (body cx rec k nd.kind a m env st).map (bracket cx i a m st)
     else
       let act := cx.actOf env i nd
-      let en := decide (a = .action)
-      let hasApply := en && act.kind == .apply
-      let hasApply0 := en && act.kind == .apply0
-      let useGuard := hasApply || (hasApply0 && act.isBool)
-      let gm : RMode := if useGuard then .required else .optional
-      let saved := st.cur
-      let eStart := Ev.start i (cx.rep st.cur)
-      match body cx rec k nd.kind a (if useGuard then .optional else m) env st with
-      | none => none
-      | some r =>
-        match r.res with
-        | .thr _ =>
-          let uw := if cx.unwind then [Ev.unwind i (cx.rep r.st.cur)] else []
-          some (fin (guardRestore gm saved { r with raw := eStart :: r.raw ++ uw }))
-        | .fail =>
-          some (fin (guardRestore gm saved { r with raw := eStart :: r.raw ++ [Ev.failure i (cx.rep r.st.cur)] }))
-        | .ok =>
-          let b := saved
-          let e := r.st.cur
-          if hasApply || hasApply0 then
-            let aev := if hasApply then Ev.apply i (cx.rep b) (cx.rep e) else Ev.apply0 i (cx.rep e)
-            let bb := if hasApply then (cx.rep b).pos else (cx.rep e).pos
-            if act.throws i bb (cx.rep e).pos then
-              let uw := if cx.unwind then [Ev.unwind i (cx.rep e)] else []
-              some (fin (guardRestore gm saved
-                { r with res := .thr (.foreign i act.throwStd), raw := eStart :: r.raw ++ [aev] ++ uw }))
-            else if act.vetoes i bb (cx.rep e).pos then
-              some (fin (guardRestore gm saved
-                { r with res := .fail, raw := eStart :: r.raw ++ [aev, Ev.failure i (cx.rep e)] }))
-            else
-              some (fin { r with raw := eStart :: r.raw ++ [aev, Ev.success i (cx.rep e)], surv := r.surv ++ [aev] })
-          else
-            some (fin { r with raw := eStart :: r.raw ++ [Ev.success i (cx.rep e)] })
+      let ug := useGuard a act
+      (body cx rec k nd.kind a (if ug then .optional else m) env st).map fun r =>
+        let r := afterBody cx i a act st.cur r
+        let r := { r with raw := Ev.start i (cx.rep st.cur) :: r.raw }
+        bracket cx i a m st (guardRestore (if ug then .required else .optional) st.cur r)
 
 /-- The matcher with fuel. -/
-def run (cx : Ctx) : Nat → Rec
-  | 0 => fun _ _ _ _ _ => none
-  | n + 1 => fun i a m env st => nodeCall cx (run cx n) n i a m env st
+def run (cx : Ctx) (fuel : Nat) (i : Nat) (a : AMode) (m : RMode) (env : Env) (st : St) : Out :=
+  match fuel with
+  | 0 => none
+  | n + 1 => nodeCall cx (fun i a m env st => run cx n i a m env st) n i a m env st
 
 /-- `tao::pegtl::parse< Rule_i, Action, Control, A, M >( in )` on a fresh input. -/
 def parseTop (cx : Ctx) (fuel : Nat) (i : Nat) (a : AMode) (m : RMode) : Out :=
